@@ -18,6 +18,7 @@ type Config struct {
 	TruncateDiff      uint64   `json:"truncate_diff"`        // 0 = source value
 	TruncateAt        uint64   `json:"truncate_at"`          // accountant.Config.Truncate
 	SignalBuf         uint64   `json:"signal_buf,omitempty"` // knob initialThroughput (truncate-signal channel capacity, initial throughput); 0 = source value
+	ChanCap           int      `json:"chan_cap,omitempty"`   // caps the large buffered channels of the code (sync loader 1000, DAG stream 100); 0 = source values
 	MaxArraySize      uint64   `json:"max_array_size"`
 	MaxRepeats        uint64   `json:"max_repeats"`
 	DataSize          int      `json:"data_size"`
